@@ -134,7 +134,9 @@ def h24map_real(ctx):
     that set plus values the map does not know: a device the map knows with an instance it does not, an
     unknown device, a known pair - decoding never fails whatever the map contains."""
     x = ctx.fresh("x", 0, 0xFFFFFF)
-    ctx.assume(E.eq(x & 0x818000, 0x008000))
+    # events from a short address: the device/instance scheme (bit 15 set, the map is consulted) and the device
+    # scheme (bit 15 clear: the same five bits are the instance type, the map has no say)
+    ctx.assume(E.eq(x & 0x810000, 0))
     sa, inst = (x >> 17) & 0x3F, (x >> 10) & 0x1F
     ctx.assume(E.or_(E.eq(sa, 5), E.eq(sa, 37), E.eq(sa, 63)))
     ctx.assume(E.or_(E.eq(inst, 0), E.eq(inst, 2), E.eq(inst, 31)))
